@@ -17,3 +17,14 @@ package de
 //@   requires len(val) == 9 && s_isdigits(val)
 //@   ensures [iff] err == nil <==> s_byte(val, 8) - 48 == deCheck(val)
 //@   loop 1 invariant 0 <= i && i <= 8 && p == deP(val, i)
+//
+// The whole rule: a non-empty code is accepted exactly when it has the format (nine digits,
+// the first not zero) and its last digit is the check digit. What the pattern accepts is
+// assumed (global), tied to its text (pin).
+//@ pred deFormat(val string) bool = len(val) == 9 && s_byte(val, 0) >= 49 && s_byte(val, 0) <= 57 && digitsIn(val, 1, 9)
+//@ pin taxCodeRegexps []*regexp.Regexp{regexp.MustCompile(`^[1-9]\d{8}$`)}
+//@ global len(taxCodeRegexps) == 1 && taxCodeRegexps[0] != nil && (forall s string :: reMatch(taxCodeRegexps[0], s) <==> deFormat(s))
+//@ func validateTaxCode(value) (err)
+//@   ensures [iff] typeis(value, cbc.Code) && unboxed(value, cbc.Code) != "" ==> (err == nil <==> deFormat(unboxed(value, cbc.Code)) && s_byte(unboxed(value, cbc.Code), 8) - 48 == deCheck(unboxed(value, cbc.Code)))
+//@   ensures [skip] !typeis(value, cbc.Code) || unboxed(value, cbc.Code) == "" ==> err == nil
+//@   loop 1 invariant !match && (forall j int :: 0 <= j && j < idx ==> !reMatch(taxCodeRegexps[j], val))
